@@ -267,6 +267,14 @@ Definition dec_op (s : sx) : option op :=
           Some (OAdd {| a_id := id; a_name := nm; a_sal := sal; a_agroup := ag; a_group := g; a_noloop := nl; a_lock := lk;
                         a_autofocus := af; a_created := id |})
       | _, _, _, _ => None end
+  (* the same with an explicit creation stamp: the harness creates the activations of a case in stamp order and adds them
+     where the history says (creation order and insertion order may differ) *)
+  | L [A 0; A id; A nm; A sal; ag; A g; nl; lk; af; A created] =>
+      match dec_og ag, getB nl, getB lk, getB af with
+      | Some ag, Some nl, Some lk, Some af =>
+          Some (OAdd {| a_id := id; a_name := nm; a_sal := sal; a_agroup := ag; a_group := g; a_noloop := nl; a_lock := lk;
+                        a_autofocus := af; a_created := created |})
+      | _, _, _, _ => None end
   | L [A 1] => Some ONext | L [A 2] => Some OMark | L [A 3; A g] => Some (OFocus g) | L [A 4] => Some OReset
   | _ => None end.
 Definition dec_rule (s : sx) : option crule :=
